@@ -190,6 +190,28 @@ class ListGen:
             self.L += [f"{cp} = [{', '.join(['9'] * k)}]", f"{cp} = {srcn}", f"{cp}.append(901)", f"mon.write({cp}[-1])", f"mon.write({cp}[0])",
                        f"{cp}.remove(901)", f"mon.write(len({cp}))"]
             self.features.add("copy-assign-then-append")
+        strs_l = [nm for nm in names if self.lists[nm]["t"] == "str" and self.lists[nm]["vals"]]
+        self.loop_extra = []
+        if strs_l and r.random() < 0.5:
+            # a declared list of strings re-assigned from another named one (element-wise deep copy), on every pass as well
+            srcn = r.choice(strs_l)
+            cp = self.fresh("scp")
+            k = len(self.lists[srcn]["vals"])
+            self.L += [f"{cp} = [{', '.join(['\"z\"'] * k)}]", f"{cp} = {srcn}", f"mon.write({cp}[0])"]
+            self.loop_extra += [f"{cp} = {srcn}", f"te_{cp} = {srcn}[0]", f"{srcn}.append(te_{cp})", f"mon.write({cp}[0])", f"{srcn}.remove(te_{cp})", f"mon.write(len({cp}))"]
+            self.features.add("string-list-copy-assign")
+        if len(ints) >= 2 and r.random() < 0.4:
+            # a helper that hands back one of its list parameters; the result replaces a declared list, which then grows and shrinks
+            a, b = r.sample(ints, 2)
+            if len(self.lists[a]["vals"]) == len(self.lists[b]["vals"]):
+                fn = self.fresh("choose")
+                act = self.fresh("act")
+                k = len(self.lists[a]["vals"])
+                self.L += [f"def {fn}(xs, ys, k):", "    if k > 0:", "        return xs", "    return ys",
+                           f"{act} = [{', '.join(['0'] * k)}]", f"{act} = {fn}({a}, {b}, 1)", f"mon.write({act}[0])"]
+                self.loop_extra += [f"{act} = {fn}({a}, {b}, count % 2)", f"{act}.append(900 + count)", f"mon.write({a}[0])", f"mon.write({act}[-1])",
+                                    f"{act}.remove(900 + count)"]
+                self.features.add("helper-returns-list-parameter")
         if "list-alias" in self.hz:
             src = r.choice(names)
             al = self.fresh("alias")
@@ -208,6 +230,8 @@ class ListGen:
         ind = "    "
         self.L.append(f"{ind}count += 1")
         self.L.append(f"{ind}mon.write(count)")
+        for line in getattr(self, "loop_extra", []):
+            self.L.append(ind + line)
         for nm in names:
             info = self.lists[nm]
             if r.random() < 0.8:
